@@ -106,7 +106,7 @@ out.append('ArgPool == <<' + ',\n            '.join(seq(a) for a in args) + '>>\
 out.append('QuickArgs == %d\n' % quick_args)
 out.append('''Args1 == {ArgPool[i] : i \\in 1..(IF Deep THEN Len(ArgPool) ELSE QuickArgs)}
 Args2 == {ArgPool[i] : i \\in (1..(IF Deep THEN 16 ELSE 8)) \\cup {13, 14, 16}}
-Args3 == {ArgPool[i] : i \\in 1..(IF Deep THEN 6 ELSE 4)}
+Args3 == {ArgPool[i] : i \\in (1..(IF Deep THEN 6 ELSE 4)) \\cup {12}}       \\* (12: a number that is not an integer, where hours, positions, scales are expected)
 BifDocs == {<<f, "(", ")">> : f \\in Bifs}
            \\cup {<<f, "(">> \\o a \\o <<")">> : f \\in Bifs, a \\in Args1}
            \\cup {<<f, "(">> \\o a \\o <<",">> \\o b \\o <<")">> : f \\in Bifs, a \\in Args2, b \\in Args1}
